@@ -125,15 +125,15 @@ type uReplyRec struct {
 }
 
 type uAssoc struct {
-	Client   int
-	Gen      int
-	Key      kit.KeySpec
-	NatSrc   map[string]string // family ("v4"/"v6") -> source address seen by targets
-	Sends    []uSendRec
-	Replies  []uReplyRec
-	Rec      *kit.RecUDPAssoc
-	Expired  bool
-	targets  map[int]bool
+	Client  int
+	Gen     int
+	Key     kit.KeySpec
+	NatSrc  map[string]string // family ("v4"/"v6") -> source address seen by targets
+	Sends   []uSendRec
+	Replies []uReplyRec
+	Rec     *kit.RecUDPAssoc
+	Expired bool
+	targets map[int]bool
 	// client-side instant taken before the most recent datagram that extends the deadline
 	LastWrite time.Time
 }
